@@ -101,6 +101,17 @@ def main(tier, seed):
         if gen.paths(T["body"]) ** N * max(1, gen.paths(T["init"])) > 2500:
             continue
         items.append({"id": f"sim-{run.seed}-{i}", "text": gen.render(T), "T": T})
+    # probabilistic initial blocks (a choice, and a choice nested in an if)
+    ONE = ()
+    Tp = {"vars": ["x", "y", "z"], "s0": {}, "guard": ("true",),
+          "init": [("assign", "x", [(F(1, 2), []), (F(1, 2), [(F(1), ONE)])], ("true",), "x"),
+                   ("assign", "y", [(F(1), [])], ("true",), "y"),
+                   ("if", [("atom", [(F(1), (("x", 1),))], "==", [(F(1), ONE)])],
+                    [[("assign", "z", [(F(1, 4), [(F(2), ONE)]), (F(3, 4), [(F(3), ONE)])], ("true",), "z")]],
+                    [("assign", "z", [(F(1), [])], ("true",), "z")])],
+          "body": [("assign", "y", [(F(1, 2), [(F(1), (("y", 1),)), (F(1), (("x", 1),))]), (F(1, 2), [(F(1), (("y", 1),)), (F(1), (("z", 1),))])],
+                    ("true",), "y")]}
+    items.insert(0, {"id": "sim-probinit", "text": gen.render(Tp), "T": Tp})
     for path in sorted(os.listdir(os.path.join(C.VERIF, "corpus"))):
         meta_text = open(os.path.join(C.VERIF, "corpus", path)).read()
         if "#@ simulate: yes" in meta_text:
